@@ -327,6 +327,32 @@ def real_time(ctx, pexpect, thorough):
     ctx.oracle_stats['real_time_runs'] = [(a, b, (round(d, 2) if isinstance(d, float) else d)) for a, b, d in results]
 
 
+def wait_budget(ctx, pexpect, n):
+    """the environment law for the pty / fd / socket transports, deterministically: under scripted system calls (the harness of
+    C06), the waits a single read_nonblocking(timeout=r) asks of select / poll / recv add up to at most r and none is unbounded"""
+    from .. import transport_sim as T
+    rng = ctx.rng
+    tried = 0
+    for it in range(n):
+        which = rng.choice([0, 1, 2])
+        use_poll = rng.random() < 0.5
+        sched = T.gen_sched(rng, rng.randint(2, 14))
+        sim = T.Sim(b'', True, True, sched)
+        calls = [(rng.choice([1, 3, 100]), rng.random() < 0.3) for _ in range(rng.randint(1, 4))]
+        try:
+            obs, c = T.run_calls(pexpect, which, sim, calls, use_poll=use_poll)
+        except Exception:
+            continue                # judged by C06
+        tried += 1
+        for r, waits in c._verif_waits:
+            total = sum(w for w in waits if w)
+            if any(w is None for w in waits) or total > r + 1e-9:
+                ctx.hit('C05/wait-budget', '%s read_nonblocking(timeout=%r) (use_poll=%s) asked the kernel to wait %r: more than its budget'
+                        % (['pty', 'fd', 'socket'][which], r, use_poll, waits), {'transport': which, 'sched': repr(sched), 'calls': calls, 'use_poll': use_poll})
+                return
+    ctx.oracle_stats['wait_budget_runs'] = tried
+
+
 def popen_read_law(ctx, pexpect, n):
     """the environment law of the deadline theorems, checked for PopenSpawn.read_nonblocking over a VIRTUAL clock: the queue is a
     fake whose items have arrival times (a blocking get advances the clock), the clock of the module is scripted; with remaining
@@ -426,6 +452,7 @@ def run(ctx):
     conventions(ctx, pexpect)
     interrupt_wrappers(ctx, pexpect)
     popen_read_law(ctx, pexpect, 6000 if thorough else 1500)
+    wait_budget(ctx, pexpect, 4000 if thorough else 800)
     real_time(ctx, pexpect, thorough)
 
 
